@@ -140,7 +140,21 @@ func c12Gen(seed int64, idx int) c12Case {
 	case 7:
 		// sibling clash introduced by uses / augment
 		c.clash = true
-		switch (idx / 10) % 3 {
+		switch (idx / 10) % 7 {
+		case 3:
+			// a choice shares the identifier namespace of its sibling data nodes (RFC 6020 6.2.1)
+			m.Add(yang.S("grouping", "clg", yang.S("choice", "same", yang.S("leaf", "inner", yang.S("type", "string")))),
+				yang.S("container", "cl-use", yang.S("uses", "clg"), yang.S("leaf", "same", yang.S("type", "int8"))))
+		case 4:
+			m.Add(yang.S("grouping", "clg", yang.S("choice", "same", yang.S("leaf", "inner", yang.S("type", "string")))),
+				yang.S("container", "cl-use", yang.S("leaf", "same", yang.S("type", "int8")), yang.S("uses", "clg")))
+		case 5:
+			m.Add(yang.S("grouping", "clg", yang.S("container", "same")),
+				yang.S("container", "cl-use", yang.S("choice", "same", yang.S("leaf", "inner", yang.S("type", "string"))), yang.S("uses", "clg")))
+		case 6:
+			pf := m.Find("prefix").Arg
+			m.Add(yang.S("container", "cl-use", yang.S("leaf", "same", yang.S("type", "int8"))),
+				yang.S("augment", "/"+pf+":cl-use", yang.S("choice", "same", yang.S("leaf", "inner", yang.S("type", "string")))))
 		case 0:
 			m.Add(yang.S("grouping", "clg", yang.S("leaf", "same", yang.S("type", "string"))),
 				yang.S("container", "cl-use", yang.S("leaf", "same", yang.S("type", "int8")), yang.S("uses", "clg")))
@@ -249,7 +263,12 @@ func (p *c12) Run(tier string, seed int64, idx int) core.CaseResult {
 	if c.clash {
 		res.Ev("clash_sets", 1)
 		if fr.Accepted() {
-			res.Fail("C12/sibling-clash-accepted", input, "a name clash among the siblings introduced by uses/augment compiled")
+			cls := "C12/sibling-clash-accepted"
+			if k := (idx / 10) % 7; k >= 3 {
+				// reference-side class: the clash is between a choice and a data node
+				cls += "/choice-and-data-node"
+			}
+			res.Fail(cls, input, "a name clash among the siblings introduced by uses/augment compiled")
 		}
 		return res
 	}
@@ -476,7 +495,22 @@ func c12SplitIntoSubmodule(ms *yang.ModSet) *yang.ModSet {
 	return out
 }
 
-func (p *c12) Witness(raw json.RawMessage) []core.Failure { return nil }
+func (p *c12) Witness(raw json.RawMessage) []core.Failure {
+	var w struct {
+		Text   string `json:"text"`
+		Expect string `json:"expect"`
+		Class  string `json:"class"`
+	}
+	json.Unmarshal(raw, &w)
+	cr := compileTexts(map[string]string{"m": w.Text}, nil, nil, nil, false)
+	if cr.Panic != "" {
+		return []core.Failure{{Class: "C12/panic/" + core.TopRepoFrame(cr.Stack), Detail: cr.Panic}}
+	}
+	if (w.Expect == "accept") != cr.Accepted() {
+		return []core.Failure{{Class: w.Class, Input: w.Text, Detail: "verdict " + cr.Verdict() + " " + cr.Err}}
+	}
+	return nil
+}
 
 // Shrink: developer tool.
 func (p *c12) Shrink(tier string, seed int64, idx int, match string) string {
